@@ -40,6 +40,14 @@ for sid in ids:
             out['%s/%s%s' % (chk, tier, ('@seed' + os.environ['VERIF_SEED']) if os.environ.get('VERIF_SEED') else '')] = {'exit': p.returncode, 'violation_buckets': sorted(set(buckets))[:12],
                                           'summary': txt.strip().split('\n')[-1]}
             print(sid, chk, tier, 'exit', p.returncode, len(set(buckets)), 'buckets', flush=True)
+            # keep up to two of the failing inputs as regression replays of that check
+            reps = re.findall(r'VIOLATION property=(\S+) replay=(\S+)', txt)
+            for n, (pp, rp) in enumerate(reps[:2]):
+                src_f = os.path.join(V, rp)
+                if os.path.exists(src_f) and pp == chk:
+                    dst = os.path.join(V, 'regress', chk)
+                    os.makedirs(dst, exist_ok=True)
+                    shutil.copy(src_f, os.path.join(dst, '%s-%d.json' % (sid, n)))
         json.dump(out, open(path, 'w'), indent=1, sort_keys=True)
     finally:
         shutil.rmtree(tmp, ignore_errors=True)
